@@ -189,7 +189,7 @@ func c07Jobs(c *ctx) (small []iso.Job, large []iso.Job) {
 }
 
 func runC07(c *ctx) {
-	c.Rule = "inputs run in child worker processes (ulimit -v 4 GiB, watchdog); oracle: no panic escapes hsms.Parse, the worker does not abort, TotalAlloc delta <= 1 MiB + 2048*len(input). Families: every format x 1/2/3 length bytes x declared length {0,1,255,256,65535,65536,2^24-1} x bytes present {0,1,declared-1,declared} at list depth {0,1,2,7,64} inside over-declaring lists; long legitimate items; closed/unclosed one-element list chains; every single-point fault of seed encodings (the C03 enumerator); random bytes behind a correct length prefix; the deep-chain probe. non-trivial = input declares a length larger than the bytes that follow, or is >= 4 KiB; distinct by hash"
+	c.Rule = "inputs run in child worker processes (ulimit -v 4 GiB, watchdog); oracle: no panic escapes hsms.Parse, the worker does not abort, TotalAlloc delta <= 1 MiB + 2048*len(input). Families: every format x 1/2/3 length bytes x declared length {0,1,255,256,65535,65536,2^24-1} x bytes present {0,1,declared-1,declared} at list depth {0,1,2,7,64} inside over-declaring lists; long legitimate items; lists of many small items of every format; generated legitimate trees up to ~1 MB; nested lists each declaring the largest count the remaining bytes allow; closed/unclosed one-element list chains; every single-point fault of seed encodings (the C03 enumerator); random bytes behind a correct length prefix; the deep-chain probe. non-trivial = input declares a length larger than the bytes that follow, or is >= 4 KiB; distinct by hash"
 	c.Assume = []string{"runtime.MemStats.TotalAlloc measures the memory allocated during one call in a single-goroutine worker", "the bound's constants (1 MiB + 2048 B/byte) are ~4x the most expensive legitimate construct measured on this tree"}
 
 	small, large := c07Jobs(c)
@@ -208,6 +208,21 @@ func runC07(c *ctx) {
 		})
 		mu.Lock()
 		small = append(small, local...)
+		mu.Unlock()
+	})
+	// legitimate complex trees, small to ~1 MB (the bound must hold for ordinary traffic of every shape)
+	c.parallel(c.pick(300, 3000), func(i int, r *rng.R) {
+		p := gen.Profile{MaxDepth: 1 + r.Intn(6), Boundary: true, Budget: 2000 << uint(r.Intn(9)), MaxKids: 2 + r.Intn(8), MaxElems: 1 + r.Intn(12)}
+		g := gen.New(r, p)
+		m := g.Msg(g.Tree(), true)
+		b := ref.EncodeMessage(m)
+		fam := "generated-tree"
+		mu.Lock()
+		if len(b) > 32<<10 {
+			large = append(large, iso.Job{Input: b, Family: fam})
+		} else {
+			small = append(small, iso.Job{Input: b, Family: fam})
+		}
 		mu.Unlock()
 	})
 	// (e) random bytes with a correct length prefix, and item soups with huge declared lengths
@@ -318,7 +333,7 @@ func runC07(c *ctx) {
 			c.Sample(map[string]interface{}{"family": j.Family, "len": len(j.Input), "input": hex.EncodeToString(clipB(j.Input))})
 		}
 	}
-	c.Required = []string{"family/declared-vs-present", "family/single-point-fault", "family/long-item", "family/many-small-items", "family/closed-chain", "family/greedy-nested-lists", "family/random", "accepted", "rejected"}
+	c.Required = []string{"family/declared-vs-present", "family/single-point-fault", "family/long-item", "family/many-small-items", "family/generated-tree", "family/closed-chain", "family/greedy-nested-lists", "family/random", "accepted", "rejected"}
 }
 
 func firstLines(s string, n int) string {
